@@ -21,6 +21,17 @@
 //! with other RandomState keys and addresses must print the same hashes.
 //! After the TLC lines a seeded random universe (`--rand n`) of larger values
 //! with near-miss mutants is generated and observed the same way.
+//!
+//! `--lens <file>` (length-encoding binding, specs/StableHashLenCode.tla /
+//! StableHashLenTrace.tla): the file holds the boundary universe printed by
+//! specs/StableHashLenGen.tla.  The bytes the tree under test writes for
+//! `write_length_prefix(n)` are recorded with the recording hasher - which
+//! deliberately does NOT override `write_length_prefix`, so the trait's
+//! default method runs - as bare calls and as the stream of real
+//! `Vec<u8>` / `String` / `Vec<u16>` values minus their payload; real
+//! composite values cut around the boundaries are observed as above.  For
+//! every recorded encoding that is a prefix of another one the colliding
+//! composite values are constructed and hashed for real (`adv:` records).
 #![allow(clippy::all)]
 
 use std::{
@@ -147,6 +158,15 @@ impl Out {
         let mut hs = [0u128; 2];
         let mut ss = [String::new(), String::new()];
         for (n, seed) in [0u64, self.seed1].into_iter().enumerate() {
+            if MUTANT.load(Ordering::SeqCst) == 3 {
+                // selftest only: a hasher whose length prefix is the off-by-one compact code
+                let mut r = OffByOne(Rec::new(seed));
+                v.stable_hash(&mut r);
+                hs[n] = StableHasher::finish(&r);
+                show(&r.0.into_stream(), &mut ss[n]);
+                self.evals += 1;
+                continue;
+            }
             let mut r = Rec::new(seed);
             v.stable_hash(&mut r);
             hs[n] = StableHasher::finish(&r);
@@ -388,6 +408,30 @@ impl<T: StableHash> StableHash for BadSet<'_, T> {
         state.write_length_prefix(self.0.len());
         for x in self.0 {
             x.stable_hash(state);
+        }
+    }
+}
+
+/// `--mutant lenoffbyone`: the recording hasher with `write_length_prefix`
+/// replaced by the compact code with the off-by-one threshold (one byte for
+/// `len <= 0xFF`, else `0xFF` + u64): the length 255 is written as the escape
+/// byte.  Never used outside the selftest; the code under test is untouched.
+struct OffByOne(Rec);
+impl StableHasher for OffByOne {
+    type Hash = u128;
+
+    fn finish(&self) -> u128 { StableHasher::finish(&self.0) }
+
+    fn write(&mut self, bytes: &[u8]) { StableHasher::write(&mut self.0, bytes) }
+
+    fn sub_hash(&self, f: &mut dyn FnMut(&mut dyn StableHasher<Hash = u128>)) -> u128 { self.0.sub_hash(f) }
+
+    fn write_length_prefix(&mut self, len: usize) {
+        if len <= 0xFF {
+            self.write_u8(len as u8);
+        } else {
+            self.write_u8(0xFF);
+            self.write_u64(len as u64);
         }
     }
 }
@@ -1161,6 +1205,289 @@ fn rand_universe(n: usize, seed: u64, seed1: u64, w: &mut impl Write, evals: &mu
     }
 }
 
+// ------------------------------------------------- length-encoding binding
+
+fn hex(b: &[u8]) -> String { b.iter().map(|x| format!("{x:02x}")).collect() }
+
+/// Bytes written by `write_length_prefix(n)` of the tree under test, seen by
+/// the recording hasher (static dispatch) and through `dyn StableHasher` as the
+/// interner calls it.  `Rec` implements only `write` / `finish` / `sub_hash`:
+/// the length prefix comes out of the trait's default method.
+fn len_bytes(n: usize) -> (Vec<u8>, Vec<u8>) {
+    fn flat(t: Vec<Tk>) -> Vec<u8> {
+        t.into_iter().map(|t| if let Tk::B(b) = t { b } else { panic!("bag in a length prefix") }).collect()
+    }
+    if MUTANT.load(Ordering::SeqCst) == 3 {
+        let mut r = OffByOne(Rec::new(0));
+        r.write_length_prefix(n);
+        let b = flat(r.0.into_stream());
+        return (b.clone(), b);
+    }
+    let mut r = Rec::new(0);
+    r.write_length_prefix(n);
+    let mut d = Rec::new(0);
+    {
+        let dd: &mut dyn StableHasher<Hash = u128> = &mut d;
+        dd.write_length_prefix(n);
+    }
+    (flat(r.into_stream()), flat(d.into_stream()))
+}
+
+fn unhex(s: &str) -> Vec<u8> { (0..s.len() / 2).map(|i| u8::from_str_radix(&s[2 * i..2 * i + 2], 16).expect("flat stream")).collect() }
+
+/// content of a value as its identity; long contents are abbreviated by their
+/// length and two independent 64-bit digests
+fn content_abs(parts: &[&[u8]]) -> String {
+    let total: usize = parts.iter().map(|p| p.len()).sum();
+    if total <= 1400 {
+        return parts.iter().map(|p| hex(p)).collect::<Vec<_>>().join("/");
+    }
+    parts
+        .iter()
+        .map(|p| {
+            let (mut h1, mut h2) = (DefaultHasher::new(), DefaultHasher::new());
+            p.hash(&mut h1);
+            (0xC13u64, p).hash(&mut h2);
+            format!("len{}:{:016x}{:016x}", p.len(), h1.finish(), h2.finish())
+        })
+        .collect::<Vec<_>>()
+        .join("/")
+}
+
+struct Fill {
+    raw: Vec<u8>,
+    ascii: Vec<u8>,
+}
+
+impl Fill {
+    fn new(seed: u64, n: usize) -> Self {
+        let mut r = StdRng::seed_from_u64(seed ^ 0x1E45);
+        Self { raw: (0..n).map(|_| r.r#gen()).collect(), ascii: (0..n).map(|_| r.gen_range(b' '..=b'~')).collect() }
+    }
+}
+
+/// The adversarial construction, generic in the encoder: `en = enc(n)` is a
+/// prefix of `em = enc(m)`, n != m.  Long value: (A, B) with |A| = m; its
+/// stream is  em ++ A ++ enc(|B|) ++ B.  The same bytes are read as a short
+/// value (a, b) with |a| = n:  en ++ a ++ enc(p) ++ b, p = |b|.  Bytes of A and
+/// B are free, bytes of the length fields are fixed; a p is searched whose
+/// encoding fits at the place where the short reading expects the second
+/// length.  `pre` is a common prefix of both streams (the outer length of the
+/// nested shape).  Returns ((a, b), (A, B)).
+fn construct(n: usize, m: usize, enc: &dyn Fn(usize) -> Vec<u8>, fill: &[u8], ascii: bool) -> Option<((Vec<u8>, Vec<u8>), (Vec<u8>, Vec<u8>))> {
+    let (en, em) = (enc(n), enc(m));
+    if !em.starts_with(&en) || n == m {
+        return None;
+    }
+    let mut lbs = vec![0usize, 1, 2, 3];
+    for x in 0..4 {
+        lbs.push(n.saturating_sub(m) + x + 4);
+    }
+    for lb in lbs {
+        let elb = enc(lb);
+        let mut l: Vec<Option<u8>> = em.iter().map(|b| Some(*b)).collect();
+        l.extend(std::iter::repeat(None).take(m));
+        l.extend(elb.iter().map(|b| Some(*b)));
+        l.extend(std::iter::repeat(None).take(lb));
+        let pos = en.len() + n;
+        if pos > l.len() {
+            continue;
+        }
+        let rest = l.len() - pos;
+        for q in 0..=rest.min(24) {
+            let p = rest - q;
+            let ep = enc(p);
+            if ep.len() != q || !(0..q).all(|i| l[pos + i].map_or(true, |x| x == ep[i])) {
+                continue;
+            }
+            let mut l2 = l.clone();
+            for i in 0..q {
+                l2[pos + i] = Some(ep[i]);
+            }
+            let bytes: Vec<u8> = l2.iter().enumerate().map(|(i, b)| b.unwrap_or(fill[i % fill.len()])).collect();
+            let big_a = bytes[em.len()..em.len() + m].to_vec();
+            let big_b = bytes[em.len() + m + elb.len()..].to_vec();
+            let a = bytes[en.len()..pos].to_vec();
+            let b = bytes[pos + q..].to_vec();
+            if ascii && [&a, &b, &big_a, &big_b].iter().any(|v| std::str::from_utf8(v).is_err()) {
+                continue;
+            }
+            if (a.clone(), b.clone()) == (big_a.clone(), big_b.clone()) {
+                continue;
+            }
+            return Some(((a, b), (big_a, big_b)));
+        }
+    }
+    None
+}
+
+fn lens_mode(path: &str, seed: u64, seed1: u64, w: &mut impl Write) -> u64 {
+    const MAX_VALUE: usize = 1 << 21; // real values up to 2 Mi elements
+    let fill = Fill::new(seed, 4096);
+    let raw = |i: usize| fill.raw[i % 4096];
+    let asc = |i: usize| fill.ascii[i % 4096];
+    let mut evals = 0u64;
+    let mut lens: BTreeMap<usize, Vec<u8>> = BTreeMap::new(); // bare calls
+    let emit = |w: &mut dyn Write, o: &Out, ty: &str| writeln!(w, "{}", json!({"i": -1, "ty": ty, "obs": o.to_json()})).unwrap();
+    for l in std::io::BufReader::new(std::fs::File::open(path).expect("open lens")).lines() {
+        let l = l.unwrap();
+        if l.trim().is_empty() {
+            continue;
+        }
+        let it: Value = serde_json::from_str(&l).expect("json");
+        match it["k"].as_str().unwrap() {
+            "len" => {
+                let ns = it["n"].as_str().expect("n as decimal string");
+                let Ok(n) = ns.parse::<usize>() else {
+                    writeln!(w, "{}", json!({"lenrec": true, "n": ns, "src": "call", "skipped": "does not fit usize"})).unwrap();
+                    continue;
+                };
+                let (a, d) = len_bytes(n);
+                writeln!(w, "{}", json!({"lenrec": true, "n": ns, "src": "call", "enc": hex(&a)})).unwrap();
+                if d != a {
+                    writeln!(w, "{}", json!({"lenrec": true, "n": ns, "src": "call_dyn", "enc": hex(&d)})).unwrap();
+                }
+                lens.insert(n, a);
+                evals += 2;
+            }
+            "val" => {
+                let n = it["n"].as_u64().unwrap() as usize;
+                let ty = it["ty"].as_str().unwrap();
+                assert!(n <= MAX_VALUE, "value too large");
+                let mut o = Out::new(seed1);
+                let abs = Some(format!("n={n}"));
+                let payload: Vec<u8> = match ty {
+                    "vec_u8" => {
+                        let v: Vec<u8> = (0..n).map(raw).collect();
+                        o.sized("", &abs, &v);
+                        o.add_x::<[u8]>("", "[T]", &v[..], abs.clone(), None);
+                        o.add_x("", "Arc<[T]>", &Arc::<[u8]>::from(v.clone()), abs.clone(), None);
+                        if n <= 300 {
+                            o.add_x("#VecDeque", "VecDeque", &v.iter().copied().collect::<VecDeque<u8>>(), abs.clone(), None);
+                        }
+                        v
+                    }
+                    "string" => {
+                        let v: String = (0..n).map(|i| asc(i) as char).collect();
+                        o.sized("", &abs, &v);
+                        o.add_x::<str>("", "str", v.as_str(), abs.clone(), None);
+                        o.add_x("", "Arc<str>", &Arc::<str>::from(v.as_str()), abs.clone(), None);
+                        if n <= 300 {
+                            o.add_x("#PathBuf", "PathBuf", &std::path::PathBuf::from(&v), abs.clone(), None);
+                        }
+                        v.into_bytes()
+                    }
+                    "vec_u16" => {
+                        let v: Vec<u16> = (0..n).map(|i| u16::from_le_bytes([raw(2 * i), raw(2 * i + 1)])).collect();
+                        o.sized("", &abs, &v);
+                        o.add_x::<[u16]>("", "[T]", &v[..], abs.clone(), None);
+                        v.iter().flat_map(|x| x.to_le_bytes()).collect()
+                    }
+                    _ => panic!("unknown value type {ty}"),
+                };
+                evals += o.evals;
+                // the length prefix as the real value wrote it = stream minus payload
+                let st = unhex(&o.obs[0].2.s);
+                let ok = st.ends_with(&payload);
+                let enc = if ok { &st[..st.len() - payload.len()] } else { &st[..] };
+                writeln!(w, "{}", json!({"lenrec": true, "n": n.to_string(), "src": ty, "enc": hex(enc), "payload_ok": ok})).unwrap();
+                emit(w, &o, &format!("len:{ty}"));
+            }
+            "comp" => {
+                let ty = it["ty"].as_str().unwrap();
+                let ls: Vec<usize> = arr(&it["ls"]).iter().map(|x| x.as_u64().unwrap() as usize).collect();
+                let mut o = Out::new(seed1);
+                let mut at = 0usize;
+                let parts: Vec<Vec<u8>> = ls
+                    .iter()
+                    .map(|n| {
+                        let v: Vec<u8> = (at..at + n).map(|i| if ty == "pair_str_str" { asc(i) } else { raw(i) }).collect();
+                        at += n;
+                        v
+                    })
+                    .collect();
+                let abs = Some(format!("{:?}|{}", ls, content_abs(&parts.iter().map(|p| &p[..]).collect::<Vec<_>>())));
+                observe_comp(&mut o, ty, &parts, &abs);
+                evals += o.evals;
+                emit(w, &o, &format!("len:{ty}"));
+            }
+            k => panic!("unknown item kind {k}"),
+        }
+    }
+    // adversarial pairs: every recorded encoding that is a prefix of another
+    let enc = |n: usize| len_bytes(n).0;
+    let keys: Vec<usize> = lens.keys().copied().collect();
+    let (mut prefix_pairs, mut attempted, mut constructed) = (0u64, 0u64, 0u64);
+    for &n in &keys {
+        let mut ms: Vec<usize> = keys.iter().copied().filter(|&m| m != n && lens[&m].starts_with(&lens[&n])).collect();
+        prefix_pairs += ms.len() as u64;
+        if ms.len() > 4 {
+            // the smallest three and the largest one that can be materialised
+            let big = ms.iter().copied().filter(|&m| m <= MAX_VALUE / 8).max();
+            ms.truncate(3);
+            ms.extend(big);
+            ms.dedup();
+        }
+        for m in ms {
+            if m > MAX_VALUE / 8 || n > MAX_VALUE / 8 || attempted >= 48 {
+                writeln!(w, "{}", json!({"adv": true, "n": n.to_string(), "m": m.to_string(), "constructed": false, "why": "not attempted (size / cap)"})).unwrap();
+                continue;
+            }
+            attempted += 1;
+            for ty in ["pair_vec_u8", "pair_str_str", "vec_vec_u8"] {
+                let ascii = ty == "pair_str_str";
+                let got = construct(n, m, &enc, if ascii { &fill.ascii } else { &fill.raw }, ascii);
+                let Some((short, long)) = got else {
+                    writeln!(w, "{}", json!({"adv": true, "n": n.to_string(), "m": m.to_string(), "ty": ty, "constructed": false, "why": "no fitting second length found"})).unwrap();
+                    continue;
+                };
+                constructed += 1;
+                let mut res = vec![];
+                for (tag, v) in [("short", &short), ("long", &long)] {
+                    let parts = vec![v.0.clone(), v.1.clone()];
+                    let abs = Some(format!("{:?}|{}", [v.0.len(), v.1.len()], content_abs(&[&v.0, &v.1])));
+                    let mut o = Out::new(seed1);
+                    observe_comp(&mut o, ty, &parts, &abs);
+                    evals += o.evals;
+                    emit(w, &o, &format!("adv:{ty}"));
+                    res.push(json!({"which": tag, "lens": [v.0.len(), v.1.len()], "h0": format!("{:032x}", o.obs[0].2.h0), "h1": format!("{:032x}", o.obs[0].2.h1), "stream_len": o.obs[0].2.s.len() / 2}));
+                }
+                let collide = res[0]["h0"] == res[1]["h0"] && res[0]["h1"] == res[1]["h1"];
+                writeln!(w, "{}", json!({"adv": true, "n": n.to_string(), "m": m.to_string(), "ty": ty, "constructed": true, "unequal": short != long, "collide": collide, "values": res})).unwrap();
+            }
+        }
+    }
+    writeln!(w, "{}", json!({"advsummary": true, "lens": keys.len(), "prefix_pairs": prefix_pairs, "attempted": attempted, "constructed": constructed})).unwrap();
+    evals
+}
+
+/// a real composite value of the given shape over byte parts, through its storage forms
+fn observe_comp(o: &mut Out, ty: &str, parts: &[Vec<u8>], abs: &Option<String>) {
+    match ty {
+        "pair_vec_u8" => {
+            let v = (parts[0].clone(), parts[1].clone());
+            o.sized("", abs, &v);
+            o.add_x("", "(&[u8],Box<[u8]>)", &(&v.0[..], v.1.clone().into_boxed_slice()), abs.clone(), None);
+            o.add_x("", "decode(encode)", &codec_rt(&v), abs.clone(), None);
+        }
+        "pair_str_str" => {
+            let v = (String::from_utf8(parts[0].clone()).expect("ascii"), String::from_utf8(parts[1].clone()).expect("ascii"));
+            o.sized("", abs, &v);
+            o.add_x("", "(&str,Arc<str>)", &(v.0.as_str(), Arc::<str>::from(v.1.as_str())), abs.clone(), None);
+            o.add_x("", "decode(encode)", &codec_rt(&v), abs.clone(), None);
+            o.add_x("#struct", "struct{a:&str,b:Arc<str>}", &PairStruct { a: &v.0, b: Arc::from(v.1.as_str()) }, abs.clone(), None);
+        }
+        "vec_vec_u8" => {
+            let v: Vec<Vec<u8>> = parts.to_vec();
+            o.sized("", abs, &v);
+            o.add_x::<[Vec<u8>]>("", "[T]", &v[..], abs.clone(), None);
+            o.add_x("", "Vec<Box<[u8]>>", &v.iter().map(|p| p.clone().into_boxed_slice()).collect::<Vec<_>>(), abs.clone(), None);
+            o.add_x("", "decode(encode)", &codec_rt(&v), abs.clone(), None);
+        }
+        _ => panic!("unknown composite type {ty}"),
+    }
+}
+
 // ---------------------------------------------------------------------- main
 
 fn replay_line(ty: &str, hist: &[Value], seed: u64, line_no: u64, o: &mut Out) {
@@ -1206,10 +1533,19 @@ fn main() {
     let nrand = vh::util::arg_u64(&a, "rand", 0) as usize;
     let child = a.contains_key("child");
     let mutant = vh::util::arg_str(&a, "mutant", "").to_string();
-    MUTANT.store(match mutant.as_str() { "nolen" => 1, "order" => 2, _ => 0 }, Ordering::SeqCst);
-    std::panic::set_hook(Box::new(|_| {}));
+    MUTANT.store(match mutant.as_str() { "nolen" => 1, "order" => 2, "lenoffbyone" => 3, _ => 0 }, Ordering::SeqCst);
     let mut w = std::io::BufWriter::new(std::fs::File::create(&out).expect("create out"));
     let (mut lines, mut evals, mut panics) = (0u64, 0u64, 0u64);
+    if let Some(lens) = a.get("lens") {
+        // length-encoding binding: one process, no histories
+        let res = std::panic::catch_unwind(std::panic::AssertUnwindSafe(|| lens_mode(lens, seed, seed1, &mut w)));
+        let err = res.as_ref().err().map(|e| e.downcast_ref::<String>().cloned().or_else(|| e.downcast_ref::<&str>().map(|s| s.to_string())).unwrap_or_else(|| "panic".into()));
+        writeln!(w, "{}", json!({"summary": true, "lines": 0, "evals": res.unwrap_or(0), "panics": err.is_some() as u64, "panic": err, "pid": std::process::id(),
+            "recorder_mismatch": MISMATCH.load(Ordering::SeqCst), "unfolded_bags": ODD.load(Ordering::SeqCst), "seed1": format!("{seed1:x}")})).unwrap();
+        w.flush().unwrap();
+        return;
+    }
+    std::panic::set_hook(Box::new(|_| {}));
     if !inp.is_empty() {
         for l in std::io::BufReader::new(std::fs::File::open(&inp).expect("open in")).lines() {
             let l = l.unwrap();
